@@ -20,7 +20,7 @@ def _traj(spec, dt, steps, x0=None, p0=None, rho0=None, electronics=None, integ=
     x0 = np.array(spec["x0"]) if x0 is None else x0
     p0 = np.array(spec["p0"]) if p0 is None else p0
     rho0 = rho_init if rho0 is None else rho0
-    t = mudslide.TrajectorySH(model, x0, p0, rho0, state0=spec["state"], dt=dt, max_steps=steps, zeta_list=[1.0] * (steps + 5),
+    t = mudslide.TrajectorySH(model, x0, p0, rho0, state0=spec["state"], dt=dt, max_steps=steps, zeta_list=[1e300] * (steps + 5),
                               electronic_integration=integ or spec.get("integ", "exp"), electronics=electronics,
                               max_electronic_dt=spec.get("max_edt", 0.1), seed_sequence=1)
     return t
